@@ -31,6 +31,7 @@ type qnode struct {
 	whole  bool      // summarize: min/max of a key returns the whole record
 	out    []colT    // output columns
 	viewOf *qnode    // view: its definition
+	silent bool      // extend: part of the model only, not rendered (diffCols: a missing column reads as "")
 }
 
 func (q *qnode) outNames() []string {
@@ -57,6 +58,9 @@ func (q *qnode) String() string {
 	case "where":
 		return q.src.lhs() + " where " + q.expr.String()
 	case "project", "remove":
+		if q.silent {
+			return q.src.String()
+		}
 		return q.src.lhs() + " " + q.op + " " + strings.Join(q.cols, ", ")
 	case "rename":
 		parts := make([]string, len(q.from))
@@ -65,6 +69,9 @@ func (q *qnode) String() string {
 		}
 		return q.src.lhs() + " rename " + strings.Join(parts, ", ")
 	case "extend":
+		if q.silent {
+			return q.src.String()
+		}
 		parts := make([]string, len(q.ecols))
 		for i := range q.ecols {
 			parts[i] = q.ecols[i] + " = " + q.exprs[i].String()
@@ -103,6 +110,9 @@ func (q *qnode) String() string {
 // lhs: operations are left associative, so a left operand only needs
 // parentheses for readability; we add them around binary operations.
 func (q *qnode) lhs() string {
+	if q.silent {
+		return q.src.lhs()
+	}
 	if q.src2 != nil {
 		return "(" + q.String() + ")"
 	}
@@ -110,6 +120,9 @@ func (q *qnode) lhs() string {
 }
 
 func (q *qnode) rhs() string {
+	if q.silent {
+		return q.src.rhs()
+	}
 	if q.op == "table" || q.op == "view" {
 		return q.name
 	}
@@ -219,6 +232,7 @@ type qgen struct {
 	db      *dbT
 	fresh   int
 	only    map[string]bool // if set, restrict to these tables (no views)
+	diffOK  bool            // C22 only: some requests are a union/minus of operands with different column sets
 	present map[string][]lit
 	lead    []string
 }
@@ -752,6 +766,11 @@ func (g *qgen) genTop(maxDepth int) *topQ {
 	if d > maxDepth {
 		d = maxDepth
 	}
+	if g.diffOK && chance(g.t, "diffcols", 6) {
+		if q := g.diffCols(); q != nil {
+			return &topQ{q: q}
+		}
+	}
 	tq := &topQ{q: g.gen(d)}
 	if rng(g.t, "sort", 0, 4) == 0 {
 		names := tq.q.outNames()
@@ -995,4 +1014,85 @@ func wholeRowUnderWhere(q *qnode, refs map[string]bool, relay bool) bool {
 		}
 	}
 	return wholeRowUnderWhere(q.src, refs, relay) || wholeRowUnderWhere(q.src2, refs, relay)
+}
+
+// diffCols builds `A op B` (union or minus, either order) where A = T remove s
+// and B = T where s in ("", ...): the operands have different column sets,
+// which the engine accepts (a missing column reads as ""). The model is the
+// same request with A extended by s = "" (the extend is silent: evaluated by
+// the model, not rendered), so the equal-column semantics of the evaluator
+// apply. For minus the extra column is removed again when it is not part of
+// the engine's result (header of minus = header of its first operand).
+func (g *qgen) diffCols() *qnode {
+	type cand struct {
+		tb  *tableT
+		col colT
+	}
+	var cands []cand
+	for _, tb := range g.db.tables {
+		if len(tb.cols) < 2 {
+			continue
+		}
+		for _, c := range tb.cols {
+			if c.typ == tStr {
+				cands = append(cands, cand{tb, c})
+			}
+		}
+	}
+	if len(cands) == 0 {
+		return nil
+	}
+	c := pickOf(g.t, "dc", cands)
+	a := tableNode(c.tb)
+	rem := &qnode{op: "remove", src: a, cols: []string{c.col.name}}
+	for _, oc := range a.out {
+		if oc.name != c.col.name {
+			rem.out = append(rem.out, oc)
+		}
+	}
+	ext := &qnode{op: "extend", silent: true, src: rem, ecols: []string{c.col.name}, exprs: []*exprT{constExpr(strLits[0])}}
+	ext.out = append(append([]colT(nil), rem.out...), colT{name: c.col.name, typ: tStr})
+	bsrc := tableNode(c.tb)
+	var b *qnode = bsrc
+	if k := rng(g.t, "dc_in", 0, 3); k > 0 {
+		args := []*exprT{colExpr(c.col), constExpr(strLits[0])}
+		for i := 0; i < k; i++ {
+			args = append(args, constExpr(pickOf(g.t, "dc_lit", strLits[1:])))
+		}
+		if chance(g.t, "dc_last", 50) {
+			args[1], args[len(args)-1] = args[len(args)-1], args[1]
+		}
+		b = &qnode{op: "where", src: bsrc, expr: &exprT{op: "in", args: args, typ: tBool}, out: bsrc.out}
+	}
+	op := pickOf(g.t, "dc_op", []string{"union", "union", "minus"})
+	l, r := ext, b
+	if chance(g.t, "dc_swap", 50) {
+		l, r = b, ext
+	}
+	q := &qnode{op: op, src: l, src2: r}
+	for _, oc := range l.out {
+		rc, _ := r.outCol(oc.name)
+		if rc.typ != oc.typ {
+			oc.typ = tMix
+		}
+		oc.null = oc.null || rc.null
+		q.out = append(q.out, oc)
+	}
+	if op == "minus" && l == ext {
+		// the engine's result has the columns of A only
+		p := &qnode{op: "remove", silent: true, src: q, cols: []string{c.col.name}}
+		for _, oc := range q.out {
+			if oc.name != c.col.name {
+				p.out = append(p.out, oc)
+			}
+		}
+		return p
+	}
+	return q
+}
+
+func (q *qnode) hasSilent() bool {
+	found := false
+	q.walk(func(n *qnode) { found = found || n.silent })
+	return found
 }
